@@ -1525,6 +1525,12 @@ class Evaluator:
                 return NotImplemented
             if meth == 'transpose':
                 return _transpose(base)
+            if meth in ('mean', 'sum', 'min', 'max') and not args and not kwargs and base.items \
+                    and all(is_num(i) for i in base.items):
+                if meth in ('min', 'max'):
+                    return (sp.Min if meth == 'min' else sp.Max)(*base.items)
+                tot = sum(base.items, sp.Integer(0))
+                return tot / len(base.items) if meth == 'mean' else tot
         if is_num(base):
             if meth == 'to' and args:
                 u = args[0]
@@ -2027,6 +2033,9 @@ def _matmul(a, b):
     def is_mat(t):
         return t.items and all(isinstance(i, Tup) and _is_vec(i) for i in t.items)
     try:
+        if _is_vec(a) and _is_vec(b) and len(a.items) == len(b.items) and not is_mat(a) and not is_mat(b) \
+                and all(is_num(i) for i in a.items + b.items):
+            return sum((x * y for x, y in zip(a.items, b.items)), sp.Integer(0))
         if is_mat(a) and _is_vec(b):
             if all(len(r.items) == len(b.items) for r in a.items):
                 return Tup(tuple(sum((x * y for x, y in zip(r.items, b.items)), sp.Integer(0))
